@@ -5,6 +5,7 @@ package stun_test
 import (
 	"bufio"
 	"bytes"
+	"strings"
 	"encoding/json"
 	"fmt"
 	"os"
@@ -60,7 +61,8 @@ type decGroup struct {
 	O      decOutcome `json:"o"`
 }
 
-var entryPoints = []string{"Decode", "Message.Decode", "Write", "UnmarshalBinary", "GobDecode", "ReadFrom", "CloneTo"}
+var entryPoints = []string{"Decode", "Message.Decode", "Write", "UnmarshalBinary", "GobDecode", "ReadFrom", "CloneTo",
+	"Decode/reused", "Write/reused", "ReadFrom/reused"} // the last three decode into a Message that held another message before
 
 var currentInput atomic.Value
 
@@ -95,6 +97,15 @@ func callEntryN(ep string, data []byte, spare int, wantLook bool, depth int) (o 
 	}
 	in := buf[:len(data):len(buf)]
 	m := new(stun.Message)
+	if strings.HasSuffix(ep, "/reused") {
+		// the destination last held a three-attribute message (and keeps its storage)
+		prev := stun.MustBuild(stun.BindingSuccess, stun.TransactionID, stun.NewUsername("previous-user"),
+			stun.NewSoftware("previous software"), stun.NewNonce("previous-nonce"))
+		if err := stun.Decode(prev.Raw, m); err != nil {
+			panic(err)
+		}
+		ep = strings.TrimSuffix(ep, "/reused")
+	}
 	var err error
 	var ms0, ms1 runtime.MemStats
 	func() {
@@ -128,7 +139,9 @@ func callEntryN(ep string, data []byte, spare int, wantLook bool, depth int) (o 
 			runtime.ReadMemStats(&ms1)
 		case "ReadFrom":
 			// ReadFrom reads at most cap(Raw) bytes: give it a buffer that holds the whole input
-			m.Raw = make([]byte, 0, len(data)+spare+1)
+			if cap(m.Raw) < len(data)+spare+1 {
+				m.Raw = append(make([]byte, 0, len(data)+spare+1), m.Raw...)
+			}
 			rd := bytes.NewReader(in)
 			runtime.ReadMemStats(&ms0)
 			_, err = m.ReadFrom(rd)
